@@ -42,6 +42,7 @@ def sweeps(tier, seed):
         d2 = {**d, "routers": [{"name": "r_0"}]}
         d2["connections"] = [{**c, **{k: "r_0" for k in ("src", "dst") if c[k] == "router"}} for c in d["connections"]]
         out.append((d2, dict(t, topo="names")))
+    out += families.name_collision_suite(tier, seed)
     out += families.address_suite(tier, seed)
     # the package branch without an address table (use_id_table: false; documented for XY)
     for algo in ("XY", "SRC", "ID"):
